@@ -45,13 +45,13 @@ impl Property for C14 {
     }
     fn cases(&self, tier: Tier) -> u64 {
         match tier {
-            Tier::Quick => 12_000,
+            Tier::Quick => 100_000,
             Tier::Thorough => 6_000_000,
         }
     }
     fn min_nontrivial(&self, tier: Tier) -> u64 {
         match tier {
-            Tier::Quick => 3_000,
+            Tier::Quick => 20_000,
             Tier::Thorough => 1_200_000,
         }
     }
